@@ -15,9 +15,19 @@ EXTENDS Integers, Sequences, FiniteSets, TLC
 CONSTANTS Types, KeysX509, KeysPgp, Digests, Modes, MaxRounds,
           Variant   \* "code" | "Stacks" | "RefuseMutates" | "DropsPayload" | "WrongDigestNamed" | "ProbeBlind"
 
-PgpTypes == {"deb", "rpm", "pgp-detached", "pgp-clearsign"}
+PgpTypes == {"deb", "rpm", "pgp-detached", "pgp-clearsign", "pgp-inline"}
+
+\* input layout variants of a type's fixture (the harness derives them from the fixture with standard writers)
+VariantsOf(t) ==
+  CASE t = "jar" -> {"plain", "nested-metainf"}          \* payload files under META-INF/<dir>/ named like signature files
+    [] t = "pe-dll" -> {"plain", "overlay1", "overlay3", "overlay5", "overlay8"}   \* trailing data, file length not 8-aligned
+    [] t = "pgp-inline" -> {"len191", "len192", "len8383", "len8384", "len8385"}    \* literal packet length encoding boundaries
+    [] OTHER -> {"plain"}
+
+\* signer options that may differ between rounds (alt = TRUE selects the type's alternative option set)
+AltOf(t) == IF t \in {"msi", "pe-dll", "pe-exe", "jar", "vsix"} THEN BOOLEAN ELSE {FALSE}
 SlotTypes == {"deb"}        \* named signature slots: re-signing replaces the slot of the same role
-WrapTypes == {"pgp-detached", "pgp-clearsign"}   \* output is a new wrapper around / beside the input, not the input re-written
+WrapTypes == {"pgp-detached", "pgp-clearsign", "pgp-inline"}   \* output is a new wrapper around / beside the input, not the input re-written
 
 \* digests each type documents (doc/ + README; calibrated against the pinned tree)
 DigestsOf(t) ==
@@ -26,42 +36,44 @@ DigestsOf(t) ==
     [] t \in {"dmg", "macho", "macho-fat"} -> {"sha1", "sha256", "sha384"}
     [] t \in {"manifest", "vsix"} -> {"sha1", "sha224", "sha256", "sha384", "sha512"}
     [] t = "pkg" -> {"sha1", "sha256", "sha512"}
-    [] t \in {"deb", "pgp-detached", "pgp-clearsign"} -> {"sha224", "sha256", "sha384", "sha512"}
+    [] t \in {"deb", "pgp-detached", "pgp-clearsign", "pgp-inline"} -> {"sha224", "sha256", "sha384", "sha512"}
     [] t = "rpm" -> {"sha1", "sha224", "sha256", "sha384", "sha512"}
     [] OTHER -> {"md5", "sha1", "sha224", "sha256", "sha384", "sha512"}
 
 KeysOf(t) == IF t \in PgpTypes THEN KeysPgp ELSE KeysX509
-Supported(t, k, d) == k \in KeysOf(t) /\ d \in DigestsOf(t)
+Supported(t, k, d, alt) ==
+  /\ k \in KeysOf(t) /\ d \in DigestsOf(t)
+  /\ (alt /\ t \in {"pe-dll", "pe-exe"}) => d \in {"sha1", "sha256"}    \* page hashes exist for SHA-1 / SHA-256 only
 
-VARIABLES typ, mode,
+VARIABLES typ, mode, variant,
           rounds,    \* history so far: sequence of [key, digest, outcome]
           sigs,      \* signatures the artifact carries: sequence of [key, digest]
           payloadOK, \* payload items equal to the original input's
           wellFormed,
           probe      \* what IsSigned answers for the current artifact
 
-vars == <<typ, mode, rounds, sigs, payloadOK, wellFormed, probe>>
+vars == <<typ, mode, variant, rounds, sigs, payloadOK, wellFormed, probe>>
 
 Init ==
-  /\ typ \in Types /\ mode \in Modes
+  /\ typ \in Types /\ mode \in Modes /\ variant \in VariantsOf(typ)
   /\ rounds = <<>> /\ sigs = <<>> /\ payloadOK = TRUE /\ wellFormed = TRUE /\ probe = FALSE
 
-Sign(k, d) ==
-  /\ Len(rounds) < MaxRounds
+Sign(k, d, alt) ==
+  /\ Len(rounds) < MaxRounds /\ alt \in AltOf(typ)
   /\ k \in KeysOf(typ)          \* a PGP type is only ever configured with a PGP key and vice versa
-  /\ IF Supported(typ, k, d)
+  /\ IF Supported(typ, k, d, alt)
        THEN /\ sigs' = IF Variant = "Stacks" THEN Append(sigs, [key |-> k, digest |-> d])
                        ELSE <<[key |-> k, digest |-> IF Variant = "WrongDigestNamed" THEN "sha256" ELSE d]>>
             /\ payloadOK' = (payloadOK /\ Variant # "DropsPayload")
             /\ probe' = (Variant # "ProbeBlind")
-            /\ rounds' = Append(rounds, [key |-> k, digest |-> d, outcome |-> "ok"])
+            /\ rounds' = Append(rounds, [key |-> k, digest |-> d, alt |-> alt, outcome |-> "ok"])
             /\ UNCHANGED wellFormed
-       ELSE /\ rounds' = Append(rounds, [key |-> k, digest |-> d, outcome |-> "refuse"])
+       ELSE /\ rounds' = Append(rounds, [key |-> k, digest |-> d, alt |-> alt, outcome |-> "refuse"])
             /\ wellFormed' = (wellFormed /\ Variant # "RefuseMutates")
             /\ UNCHANGED <<sigs, payloadOK, probe>>
-  /\ UNCHANGED <<typ, mode>>
+  /\ UNCHANGED <<typ, mode, variant>>
 
-Next == \E k \in KeysX509 \cup KeysPgp, d \in Digests : Sign(k, d)
+Next == \E k \in KeysX509 \cup KeysPgp, d \in Digests, alt \in BOOLEAN : Sign(k, d, alt)
 Spec == Init /\ [][Next]_vars
 
 -----------------------------------------------------------------------------
